@@ -499,6 +499,8 @@ func runC15(c *Check) {
 		{code: "globalThis.__f = function(H) {\nreturn (function(n2) { { function n2() { return 'F' } } return n2 })('P');\n};"},
 		{code: "globalThis.__f = function(H) {\nwith ({x: 1}) { function g() { return 2 } } return typeof g;\n};"},
 		{code: "globalThis.__f = function(H) {\nvar r; (class e { static { H.log(typeof e); r = (function() { return eval('typeof e') })() } }); return r;\n};"},
+		{code: "globalThis.__f = function(H) {\nfunction f(obj) { with (obj) var foo = 2; return [obj.foo, foo] } return f({foo: 1});\n};"},
+		{code: "globalThis.__f = function(H) {\nfunction g() { { var arguments } return arguments.length } return g(1, 2);\n};"},
 	}, "known-probes")
 	c15MultiFile(c, pool)
 	c15MangleProps(c, pool)
